@@ -29,7 +29,9 @@ def expr_text(rng, depth, names):
 def model(rng, idx):
     decl = ["  parameter Real p(start = %s) = %s;" % (rng.choice(LITS), rng.choice(LITS)), "  constant Real c = %s;" % rng.choice(LITS),
             "  discrete Real d(start = %s);" % rng.choice(LITS), "  Real x(start = %s, fixed = true);" % rng.choice(LITS), "  Real y;",
-            "  Integer n(start = 3);"]
+            "  Integer n(start = 3);", "  parameter Boolean b%d = %s;" % (idx, rng.choice(["false", "true"])),
+            "  discrete Boolean l(start = %s);" % rng.choice(["false", "true"]), "  Real w = %s;" % expr_text(rng, 2, ["x", "p", "c"]),
+            "  Real zero(start = 0) = 0.0;"]
     names = ["p", "c", "x", "y", "d"]
     eqs = ["  der(x) = %s;" % expr_text(rng, 3, names), "  y = %s;" % expr_text(rng, 3, names), "  d = %s;" % expr_text(rng, 2, names),
            "  n = 2;"]
@@ -49,6 +51,9 @@ def cmp_expr(el, node, ast):
     tag = el.tag
     if isinstance(node, ast.Primary):
         return None if tag == "real" and same_number(el.get("value"), node.value) else "literal %r became <%s value=%r>" % (node.value, tag, el.get("value"))
+    if isinstance(node, ast.Symbol):
+        # declaration equation: the symbol itself is the left-hand side
+        return None if tag == "local" and el.get("name") == node.name else "variable %s (left side of its declaration equation) became <%s name=%r>" % (node.name, tag, el.get("name"))
     if isinstance(node, ast.ComponentRef):
         return None if tag == "local" and el.get("name") == node.name else "reference %s became <%s name=%r>" % (node.name, tag, el.get("name"))
     if isinstance(node, ast.Expression):
@@ -132,7 +137,7 @@ def main():
                 break
     if payload.get("mode") == "bounded":
         print(json.dumps({"performed": True, "cases": n, "distinct_nontrivial": n, "failures": failures,
-                          "rule": "random flat models (seed %d) with unary / n-ary operators, function calls, variables of each variability and literals incl. 1e-8, 2.5e-7, 1e20: the XML text of the real backend is parsed with lxml and compared with an independent flatten() of the same model" % seed,
+                          "rule": "random flat models (seed %d) with unary / n-ary operators, function calls, variables of each variability (incl. Boolean variables with literal false/true and zero-valued literals), declaration equations (Real w = expr) and literals incl. 1e-8, 2.5e-7, 1e20: the XML text of the real backend is parsed with lxml and compared with an independent flatten() of the same model" % seed,
                           "bound": "%d models, expression depth 3" % n}))
     else:
         f = failures[0] if failures else None
